@@ -58,18 +58,19 @@ partial def printJLayout (sp : Nat) : J → String
   | .str s => escStr s
   | .arr xs =>
     let sep := if sp = 0 then "," else if sp = 1 then ", " else " ,\n "
-    let (o, c) := if sp = 2 then ("[ ", " ]") else ("[", "]")
+    -- layout 3: a line break right after the bracket, as a pretty-printer writes it
+    let (o, c) := if sp = 2 then ("[ ", " ]") else if sp = 3 then ("[\n\t", "\n]") else ("[", "]")
     o ++ sep.intercalate (xs.map (printJLayout sp)) ++ c
   | .obj ms =>
     let sep := if sp = 0 then "," else if sp = 1 then ", " else " ,\n "
     let col := if sp = 0 then ":" else if sp = 1 then ": " else " :\t"
-    let (o, c) := if sp = 2 then ("{ ", " }") else ("{", "}")
+    let (o, c) := if sp = 2 then ("{ ", " }") else if sp = 3 then ("{\r\n", "\r\n}") else ("{", "}")
     o ++ sep.intercalate (ms.map fun (k, v) => escStr k ++ col ++ printJLayout sp v) ++ c
 
 /-- compact text (`sp = 0`) is the MODEL's printer `JText.render` (`Impl/JsonText.lean`, proved to be read back
 by `JText.parseAll`); the other layouts (white space as other issuers may write it) are printed here -/
 def printJ (sp : Nat := 0) (j : J) : String :=
-  if sp = 0 then String.ofList (JText.render j) else printJLayout sp j
+  if sp = 0 then String.ofList (JText.render j) else if sp = 3 then " \n" ++ printJLayout sp j ++ "\n" else printJLayout sp j
 
 #guard printJ 0 (.obj [("a", .num 15 1), ("b", .arr [.num (-5) 3, .str "x\"\n"])]) == printJLayout 0 (.obj [("a", .num 15 1), ("b", .arr [.num (-5) 3, .str "x\"\n"])])
 #guard printJ 0 (.obj [("a", .num 15 1), ("b", .arr [.num (-5) 3, .str "x\"\n"])]) == "{\"a\":1.5,\"b\":[-0.005,\"x\\\"\\n\"]}"
